@@ -92,6 +92,12 @@ CHECKS = {
   text="1-6 composed rewrites per case. Acceptance must agree (a quarter of the originals come from the acceptance-boundary profile, so rejected originals occur); when accepted, the Debug rendering of every layer cell, key outputs, mapped keys, overrides, sequence trie, options, virtual keys, switch timing, layer names and chords-v2 table must be identical, and three random histories must give identical timestamped output.",
   note="Rewrite sites follow the documentation: variables only inside actions (not in template-expand arguments, whose text is compared before variables exist; not for the reverse-release-order flag), platform not nested, a new alias inside the same defalias goes right before the pair that uses it, new templates are defined in creation order."),
 
+ "C18": dict(
+  cat="exploration", ref="DESIGN.md §4 C18",
+  technique="model-based testing: proptest-generated operation histories on 1-3 virtual keys from five trigger sources against a tick-exact reference model (event queue, pressed flag, hold countdown, idle counter), through the processing-loop emulation; proptest shrinking",
+  text="Every OS transition of the virtual keys' output keys must match the model to the tick and the layer-1 flag after every tick must match: press/release/tap/toggle semantics from on-press, on-release, macro items, completed sequences and direct handle_fakekey_action calls; hold-for-duration released exactly D ticks after its most recent activation, re-armed by activations at D-1 and pressed anew at D/D+1; on-idle fired exactly once, after T idle loop iterations since the last input / activation.",
+  note="The idle trace is kanata's own is_idle() (C07's subject). A macro virtual key is modelled without held state. F45 (re-trigger of hold-for-duration after an explicit release presses nothing) is a known finding."),
+
  "C17": dict(
   cat="exploration", ref="DESIGN.md §4 C17, Appendix A.4/D",
   technique="model-based property testing: exhaustive schedule enumeration over the tap-dance key and one other key with gaps {0,1,T-1,T,T+1} + proptest-generated longer histories, compared with a reference model of lazy and eager tap-dance",
